@@ -450,6 +450,7 @@ def plan_c10(prop, tier, seed, t0):
                 OpKinds={"CreateTopic", "DeleteTopic", "CreateSub", "DeleteSub", "GetTopic", "GetSub", "Publish", "Pull", "Ack", "ModAck"},
                 MaxOps=5, MaxMsgs=1)
     return core_check(prop, tier, seed, t0, over, explore=[("churn", 64, 3000), ("mt:churnrace", 300, 20000), ("mt:cdrace", 300, 20000)],
+                      extra_scenarios=lambda quick, sd: inflight_delete_scenarios(sd, quick),
                       thorough={"mc": dict(MaxOps=6)}, turns=True)
 
 
@@ -459,7 +460,8 @@ def plan_c11(prop, tier, seed, t0):
                 OpKinds={"CreateTopic", "DeleteTopic", "CreateSub", "DeleteSub", "GetSub", "Publish", "Pull", "Walk"},
                 MaxOps=6, MaxMsgs=2)
     return core_check(prop, tier, seed, t0, over, explore=[("churn", 64, 3000), ("mt:churnrace", 300, 20000), ("mt:cdrace", 300, 20000)],
-                      extra_scenarios=lambda quick, sd: cancel_scenarios(sd, kinds={"DeleteSub", "DeleteTopic", "CreateSub"}, quick=quick),
+                      extra_scenarios=lambda quick, sd: cancel_scenarios(sd, kinds={"DeleteSub", "DeleteTopic", "CreateSub"}, quick=quick)
+                      + inflight_delete_scenarios(sd, quick),
                       thorough={"mc": dict(MaxOps=7)}, turns=True)
 
 
@@ -490,8 +492,8 @@ def plan_c13(prop, tier, seed, t0):
             out.append({"id": "c13-big-%d" % i, "cap": 16, "seed": seed + i, "phase": 0,
                         "meta": {"clock": "paused", "proj": proj, "src": "big"}, "steps": steps})
         return out
-    return core_check(prop, tier, seed, t0, over, extra_scenarios=extra, explore=[("churn", 24, 500)],
-                      thorough={"mc": dict(MaxOps=7)})
+    return core_check(prop, tier, seed, t0, over, extra_scenarios=lambda quick, sd: extra(quick, sd) + hostile_token_scenarios(sd),
+                      explore=[("churn", 24, 500)], thorough={"mc": dict(MaxOps=7)})
 
 
 def plan_c15(prop, tier, seed, t0):
@@ -608,6 +610,18 @@ def c12_scenarios(n_seeds, seed):
             start("d", 1, op="DeleteSub", name=S1),
             {"do": "wait", "h": "d"}, {"do": "wait", "h": "pub"}, {"do": "wait", "h": "p"}, {"do": "swait", "h": "s"}],
             seed=sd, cap=cap))
+        # G: the topic is deleted at the same time as the subscription (both orders)
+        for order in (0, 1):
+            if k >= 8 and (k + order) % 2:
+                continue
+            a = start("dt", 6, op="DeleteTopic", name=T1)
+            b = start("d", 1, op="DeleteSub", name=S1)
+            out.append(scn("c12-G-%d-%d" % (k, order), pre + [
+                {"do": "sopen", "h": "s", "c": 2, "sub": S1, "max": 10},
+                start("p", 3, op="Pull", sub=S1, max=1, ri=False), {"do": "settle"}] + ([a, b] if order == 0 else [b, a]) + [
+                {"do": "wait", "h": "d"}, {"do": "wait", "h": "dt"}, {"do": "settle"},
+                {"do": "wait", "h": "p"}, {"do": "swait", "h": "s"},
+                call(5, op="DeleteSub", name=S1), call(5, op="GetSub", name=S1)], seed=sd, cap=cap))
         # F: the client that asked for the deletion walks away while it is being processed.
         for polls, yields in ((1, 0), (1, 1), (2, 1)):
             if k >= 6 and k % 3 != polls + yields - 1:
@@ -619,6 +633,63 @@ def c12_scenarios(n_seeds, seed):
                 {"do": "settle"},
                 call(5, op="GetSub", name=S1),
                 {"do": "wait", "h": "p"}, {"do": "swait", "h": "s"}], seed=sd, cap=cap))
+    return out
+
+
+def token_of(offset):
+    import base64
+    import struct
+    return base64.b64encode(struct.pack("<Q", offset)).decode()
+
+
+HOSTILE_OFFSETS = [0, 1, 2, 3, 19, 20, 21, 1000, 1001, 2 ** 31 - 1, 2 ** 31, 2 ** 32, 2 ** 40, 2 ** 63 - 1, 2 ** 63,
+                   2 ** 64 - 1001, 2 ** 64 - 1000, 2 ** 64 - 21, 2 ** 64 - 20, 2 ** 64 - 19, 2 ** 64 - 2, 2 ** 64 - 1]
+
+
+def hostile_token_scenarios(seed):
+    """Decodable page tokens the server never issued (offsets up to the top of the 64-bit range), with
+    several page sizes, on all three list calls; the resources must keep working afterwards."""
+    out = []
+    for i, size in enumerate((0, 1, 2, 1000, 2147483647)):
+        steps = [call(1, op="CreateTopic", name=T1), call(1, op="CreateTopic", name=T2),
+                 call(1, op="CreateSub", name=S1, topic=T1, ack=10), call(1, op="CreateSub", name=S2, topic=T1, ack=10)]
+        for off in HOSTILE_OFFSETS:
+            tokn = token_of(off)
+            steps.append(call(2, op="ListTopicSubs", topic=T1, size=size, token=tokn))
+            steps.append(call(2, op="ListTopics", project="projects/p1", size=size, token=tokn))
+            steps.append(call(2, op="ListSubs", project="projects/p1", size=size, token=tokn))
+        steps += [{"do": "walk", "c": 2, "kind": "topicsubs", "arg": T1, "size": 1},
+                  call(3, op="Publish", topic=T1, msgs=[{"p": "alive"}]), call(3, op="Pull", sub=S1, max=1, ri=True),
+                  {"do": "drain", "c": 9}]
+        s = scn("hostile-tokens-%d" % i, steps, seed=seed + i)
+        s["meta"]["inputs"] = True
+        out.append(s)
+    return out
+
+
+def inflight_delete_scenarios(seed, quick):
+    """A DeleteSubscription is held in flight (the topic actor is gated, so the subscription waits for
+    its answer) while other requests for the same name complete; then everything is released."""
+    out = []
+    for k in range(6 if quick else 40):
+        cap = (16, 1, 2)[k % 3]
+        steps = [call(1, op="CreateTopic", name=T1), call(1, op="CreateSub", name=S1, topic=T1, ack=10),
+                 call(1, op="CreateSub", name=S2, topic=T1, ack=10),
+                 call(1, op="Publish", topic=T1, msgs=[{"p": "x%d" % k}]),
+                 {"do": "sopen", "h": "s", "c": 7, "sub": S1, "max": 10}, {"do": "settle"},
+                 {"do": "gate", "name": "t.turn", "turns": 0},
+                 start("d", 2, op="DeleteSub", name=S1), {"do": "yield", "n": 3 + k % 4}]
+        mid = [call(3, op="GetSub", name=S1), call(3, op="CreateSub", name=S1, topic=T1, ack=10),
+               call(3, op="Pull", sub=S1, max=1, ri=True), call(3, op="Ack", sub=S1, acks=[{"lit": "1"}]),
+               call(3, op="ListSubs", project="projects/p1", size=0, token=""),
+               start("d2", 4, op="DeleteSub", name=S1), {"do": "yield", "n": 2}]
+        steps += mid[k % 3:] + mid[:k % 3]
+        steps += [{"do": "gate", "name": "t.turn", "turns": -1}, {"do": "wait", "h": "d"}, {"do": "wait", "h": "d2"},
+                  {"do": "swait", "h": "s"},
+                  call(5, op="GetSub", name=S1), call(5, op="CreateSub", name=S1, topic=T1, ack=10),
+                  call(5, op="ListTopicSubs", topic=T1, size=0, token=""),
+                  call(5, op="Publish", topic=T1, msgs=[{"p": "y%d" % k}]), {"do": "drain", "c": 9}]
+        out.append(scn("inflight-del-%d" % k, steps, seed=seed * 100 + k, cap=cap))
     return out
 
 
@@ -718,6 +789,19 @@ def c07_scenarios(n_seeds, seed):
             steps.append(start("l%d" % j, 60 + j, op="ListTopicSubs", topic=T1, size=0, token=""))
         steps += [{"do": "waitall"}, call(5, op="GetSub", name=S2), {"do": "drain", "c": 9}]
         out.append(scn("c07-B-%d" % k, steps, seed=sd, cap=cap))
+        # C: a blocking Pull that is woken with nothing to take (an empty publish, a competing
+        # consumer) must still answer by its wait limit
+        if k < 6:
+            steps = [call(1, op="CreateTopic", name=T1), call(1, op="CreateSub", name=S1, topic=T1, ack=10),
+                     start("p", 3, op="Pull", sub=S1, max=1, ri=False), {"do": "settle"}]
+            for j in range(4):
+                steps.append({"do": "advance", "ms": 90000 + 7000 * k})
+                if (j + k) % 2 == 0:
+                    steps.append(call(2, op="Publish", topic=T1, msgs=[]))
+                else:
+                    steps += [call(2, op="ModAck", sub=S1, acks=[{"lit": "7"}], secs=0), call(2, op="Publish", topic=T1, msgs=[])]
+            steps += [{"do": "wait", "h": "p"}, {"do": "drain", "c": 9}]
+            out.append(scn("c07-C-%d" % k, steps, seed=sd, cap=cap))
     return out
 
 
@@ -965,7 +1049,8 @@ def c12_mc(work, quick, violations):
 
 def plan_c12(prop, tier, seed, t0):
     n = 64 if tier == "quick" else 2000
-    return scenario_check(prop, tier, seed, t0, c12_scenarios(n, seed), mc=c12_mc, explore=[("churn", 48, 2000)])
+    return scenario_check(prop, tier, seed, t0, c12_scenarios(n, seed) + inflight_delete_scenarios(seed, tier == "quick"),
+                          mc=c12_mc, explore=[("churn", 48, 2000)])
 
 
 RELEVANT["C12"] = {"send", "s.del1"}
